@@ -1,7 +1,7 @@
 (* E-sem, model side: answers the ABSTRACT questions of a case with the extracted Scoping model.
    case: <files>|<queries>|<abstract workspace>|<declaration table>   (see harness/src/eng_sem.rs)
      queries   = `K,stem,line,col,<question>` joined by `;`
-       question = P~C~m~name | M~C~m~item+item~name | N~C~method | R~C~method~name (return type) | G~C~kind~name | X~C~m~item+item | L~C~m
+       question = P~C~m~name | M~C~m~item+item~name | N~C~method | G~C~kind~name | X~C~m~item+item | L~C~m
                   (m = `-`: top-level position; item = name | name! for a call)
      workspace = entities joined by `;`, entity = kind,name,parent,uses,members,methods
        kind c|m; parent name|-; uses a+b|-; members k:name:type:tag joined by + (k = c t f p u), or -
@@ -63,9 +63,8 @@ let parse_question (s : string) : query =
   match split '~' s with
   | ["P"; c; m; n] -> QPlain (s2 c, opt_m m, s2 n)
   | ["M"; c; m; items; n] -> QDotted (s2 c, opt_m m, Stdlib.List.map parse_item (split '+' items), s2 n)
-  | ["N"; c; mn] -> QMethodHeader (s2 c, s2 mn, s2 mn)
-  | ["R"; c; mn; n] -> QMethodHeader (s2 c, s2 mn, s2 n)
-  | ["G"; c; k; n] -> QMemberName (s2 c, parse_mkind k, s2 n)
+  | ["N"; c; mn] -> QMethodName (s2 c, s2 mn)
+  | ["G"; c; _k; n] -> QMemberName (s2 c, s2 n)
   | ["X"; c; m; items] -> QCompleteDot (s2 c, opt_m m, Stdlib.List.map parse_item (split '+' items))
   | ["L"; c; m] -> QCompletePlain (s2 c, opt_m m)
   | _ -> failwith ("bad question " ^ s)
